@@ -265,6 +265,10 @@ def do_adopt(world, child_id, by, strict=False, same=False):
     LOG("return", op="adopt", pid=child_id, by=by, gen=world.gen, value_is_none=ret is None)
 
 
+def do_adopt_same(world, child_id, by):
+    do_adopt(world, child_id, by, same=True)
+
+
 def do_execute(world, child_id, by):
     child = world.payloads[child_id]
     fn = make_payload(world, child)
@@ -353,6 +357,9 @@ def service_class(flavour, shape="plain", base_flavour=None):
         cls = type("Empty_%s" % flavour, (service_class(flavour),), {"__len__": lambda self: 0})
     elif shape == "subclass":
         cls = type("Sub_%s" % flavour, (service_class(flavour),), {})
+    elif shape == "valued":
+        # value semantics (like a dataclass without fields that differ): all instances compare equal and hash alike
+        cls = type("Valued_%s" % flavour, (service_class(flavour),), {"__eq__": lambda a, b: type(a) is type(b), "__hash__": lambda self: 7})
     else:  # "redecorated": a subclass of a service class that is declared a service again, possibly of another flavour
         base = service_class(base_flavour or flavour)
         cls = service(flavour=FLAVOURS[flavour])(type("Again_%s_%s" % (base_flavour or flavour, flavour), (base,), {"run": body(flavour).run}))
@@ -597,6 +604,20 @@ def run_sync(world, pspec, args, kwargs):
                 LOG("block-start", pid=pid, gen=world.gen)
                 world.release.wait(op[1] if len(op) > 1 else None)
                 LOG("block-end", pid=pid, gen=world.gen)
+            elif kind == "burn":
+                # blocks by computing: a pure Python loop that never gives up the interpreter voluntarily
+                LOG("block-start", pid=pid, gen=world.gen, how="burn", cpu=time.process_time())
+                end, x = time.monotonic() + op[1], 0
+                while time.monotonic() < end:
+                    x += 1
+                LOG("block-end", pid=pid, gen=world.gen, how="burn", cpu=time.process_time())
+            elif kind == "private_trio_execute":
+                # a thread payload that drives a trio run of its own; one of that run's worker threads calls execute()
+                async def _foreign_trio(children=op[1]):
+                    for child in children:
+                        await trio.to_thread.run_sync(do_execute, world, child, pid)
+
+                trio.run(_foreign_trio)
             elif kind == "private_loop_adopt":
                 # a thread payload that drives its own private asyncio loop and adopts from inside it
                 async def _foreign(children=op[1], linger=op[2]):
@@ -755,6 +776,25 @@ def play(world, ops, by):
                 world.helpers.append(t)
                 t.start()
             elif kind == "quiesce":
+                if len(op) > 2:
+                    # settle first: the submitting helper threads are done and no payload has started for op[1] seconds
+                    # (at most op[2] seconds) - on a loaded machine a fixed pause is not enough
+                    deadline = time.monotonic() + op[2]
+                    for helper in list(world.helpers):
+                        helper.join(timeout=max(0.0, deadline - time.monotonic()))
+
+                    def starts():
+                        with LOG.lock:
+                            return sum(1 for e in LOG.events if e["kind"] == "start" and e.get("gen") == world.gen)
+
+                    seen, since = starts(), time.monotonic()
+                    while time.monotonic() < deadline:
+                        time.sleep(0.05)
+                        now = starts()
+                        if now != seen:
+                            seen, since = now, time.monotonic()
+                        elif time.monotonic() - since >= op[1]:
+                            break
                 LOG("quiescent", gen=world.gen)
             elif kind == "expect_end":
                 # bounded-progress restatement of "the run ends": generous patience, judged by the oracle
@@ -789,8 +829,13 @@ def run_generation(gen_spec, index):
     gc.collect()
     world = WORLD = World(gen_spec, index)
     PREVIOUS_RUNNER[0] = world.runner
-    LOG("generation", gen=index, reused_runner=bool(gen_spec.get("reuse_runner")))
-    early = [(do_adopt, p["id"]) for p in gen_spec.get("payloads", []) if p.get("when") == "queued"]
+    LOG("generation", gen=index, reused_runner=bool(gen_spec.get("reuse_runner")), switchinterval=sys.getswitchinterval())
+    early = []
+    for p in gen_spec.get("payloads", []):
+        if p.get("when") == "queued":
+            early.append((do_adopt, p["id"]))
+            for _ in range(p.get("repeat", 1) - 1):
+                early.append((do_adopt_same, p["id"]))  # the very same callable object once more
     early += [(do_service, s["id"]) for s in gen_spec.get("services", []) if s.get("create") == "before"]
     k = gen_spec.get("prestart_threads", 0)
     if k and early:
@@ -895,7 +940,7 @@ def run_generation(gen_spec, index):
         STACK_FILE.write("--- open client calls at the end of generation %d ---\n" % index)
         faulthandler.dump_traceback(file=STACK_FILE, all_threads=True)
         STACK_FILE.flush()
-    LOG("generation-end", gen=index, running_flag=world.runner.running.is_set())
+    LOG("generation-end", gen=index, running_flag=world.runner.running.is_set(), switchinterval=sys.getswitchinterval())
 
 
 STACK_FILE = None
